@@ -68,3 +68,26 @@ def NSlice.indices (s : NSlice) (len : Nat) : List Int :=
   (List.range len).map fun (k : Nat) => s.start + s.step * (k : Int)
 
 end Pt
+
+namespace Pt
+
+/-- `_map_index_base._rec_idx` (pytato/target/python/numpy_like.py): the Python
+    slice `lower:upper:step` emitted for a normalised slice of an axis of length
+    `n`; `none` = omitted. -/
+def resynthSlice (s : NSlice) (n : Int) : Option Int × Option Int × Int :=
+  if s.step > 0 then
+    (if s.start = 0 then none else some s.start,
+     if s.stop = n then none else some s.stop,
+     s.step)
+  else
+    (if s.start = n - 1 then none
+     else if s.start < 0 then some (s.start - n) else some s.start,
+     if s.stop = -1 then none else some s.stop,
+     s.step)
+
+/-- the range of `_normalize_slice` -/
+def NSlice.IsNorm (s : NSlice) (n : Int) : Prop :=
+  (s.step > 0 ∧ 0 ≤ s.start ∧ s.start ≤ n ∧ 0 ≤ s.stop ∧ s.stop ≤ n) ∨
+  (s.step < 0 ∧ -1 ≤ s.start ∧ s.start ≤ n - 1 ∧ -1 ≤ s.stop ∧ s.stop ≤ n - 1)
+
+end Pt
